@@ -40,5 +40,11 @@ Emit == done => PrintT(ToJson(
 Units == [kind |-> "units",
           radius |-> [i \in 1..13 |-> [s2 \in 1..4 |-> RadiusPx(i - 1, s2)]],        \* r2 = i - 1 (doubled nm), s2 = doubled scale
           ball |-> [i \in 1..4 |-> BallCount(i - 1)]]
-EmitUnits == (done /\ cfg = CHOOSE c \in [kind : {"assoc"}, e : Assoc, s2 : {1}] : TRUE) => PrintT(ToJson(Units))
+(* Gaussian provider geometry per axis: (shape, scale, shift) in tenths of nm; quotients integral and not *)
+GaussAxes == {a \in [shape10 : {30, 33, 41, 45, 50, 52, 60, 70}, scale10 : {4, 5, 6, 7, 10}, shift10 : {-5, 0, 3}] : ~RoundTie(a.shape10, a.scale10)}
+GaussTable == [kind |-> "gauss",
+               axes |-> ({[shape10 |-> a.shape10, scale10 |-> a.scale10, shift10 |-> a.shift10,
+                                   n |-> GaussShapePx(a.shape10, a.scale10), c |-> GaussCentre(a.shape10, a.scale10, a.shift10)] : a \in GaussAxes})]
+GaussLaw == \A a \in GaussAxes : GaussShapePx(a.shape10, a.scale10) >= 1 /\ GaussSymmetric(a.shape10, a.scale10)
+EmitUnits == (done /\ cfg = CHOOSE c \in [kind : {"assoc"}, e : Assoc, s2 : {1}] : TRUE) => (PrintT(ToJson(Units)) /\ PrintT(ToJson(GaussTable)))
 =============================================================================
